@@ -86,6 +86,9 @@ func writeEvidence(verif, prop, tier string, seed uint64, cfg tierCfg, total *St
 	}
 	b, _ := json.MarshalIndent(ev, "", " ")
 	dir := filepath.Join(verif, "evidence")
+	if d := os.Getenv("VERIF_EVIDENCE_DIR"); d != "" {
+		dir = d // development aid: sensitivity runs keep their output out of /verif
+	}
 	os.MkdirAll(dir, 0o755)
 	if err := os.WriteFile(filepath.Join(dir, prop+".json"), b, 0o644); err != nil {
 		infra("cannot write evidence: %v", err)
